@@ -65,6 +65,52 @@ def add_multipliers(rng, text, p=0.2):
     return out + text[last:]
 
 
+def marker_sites(text):
+    """(start, end, value) of the ring markers of a graph text (outside brackets; multiplier digits excluded)"""
+    out, i = [], 0
+    while i < len(text):
+        c = text[i]
+        if c == '[':
+            i = text.index(']', i) + 1
+        elif c == '|':
+            i += 1
+            while i < len(text) and text[i].isdigit():
+                i += 1
+        elif c == '%':
+            m = re.match(r'%(\d+)', text[i:])
+            if not m:
+                i += 1
+                continue
+            out.append((i, i + len(m.group(0)), int(m.group(1))))
+            i += len(m.group(0))
+        elif c.isdigit():
+            out.append((i, i + 1, int(c)))
+            i += 1
+        else:
+            i += 1
+    return out
+
+
+def zero_marker(rng, text, p=0.35):
+    """rename one ring index of a valid graph text to 0, each occurrence spelled `0`, `%0` or `%00` (ring index 0 is a
+    legal index: the reader must open and close it like any other)"""
+    sites = marker_sites(text)
+    vals = sorted({v for _, _, v in sites})
+    if not vals or 0 in vals or rng.random() >= p:
+        return text
+    v = rng.choice(vals)
+    out, last = '', 0
+    for a, b, val in sites:
+        out += text[last:a]
+        if val == v:
+            forms = ['0'] if text[b:b + 1].isdigit() else ['0', '%0', '%00']
+            out += rng.choice(forms)
+        else:
+            out += text[a:b]
+        last = b
+    return out + text[last:]
+
+
 def aa_fragment(rng):
     tmpl = rng.choice(c14.AA_TEMPLATES)
     t = ''
@@ -88,14 +134,14 @@ def cg_fragment(rng, names):
             t += '[#%s]' % rng.choice(names)
         else:
             t += re.sub(r'\[#Z\]', lambda _: '[#%s]' % rng.choice(names), tok)
-    return annotate_nodes(rng, t, p=0.5, lk=2)
+    return annotate_nodes(rng, zero_marker(rng, t), p=0.5, lk=2)
 
 
 def rand_valid(rng):
     mode = rng.choice(['aa', 'aa', 'cg', 'three'])
     names = rng.sample(['A', 'B', 'C', 'D'], rng.randint(1, 3))
     base, _ = gens.rand_base_graph(rng, names, nmax=6, max_order=2, p_ring=0.45, p_zero=0.12)
-    base = add_multipliers(rng, annotate_nodes(rng, base))
+    base = add_multipliers(rng, annotate_nodes(rng, zero_marker(rng, base)))
     unit_start = None
     if rng.random() < 0.4:
         # a multiplied unit `anchor(branch)|n` at the end of the chain; faults are placed inside it too (annotation
@@ -236,9 +282,11 @@ def ring_faults(valid):
         # 1: unclosed ring index on every node token that carries no multiplier, written as one digit and in
         #    %nn form (the last node of a fragment text / brace-less pattern included: nothing follows the marker)
         pct = next(('%%%d' % v for v in (12, 10, 27, 33, 45) if str(v) not in text and all(ch not in used_digits(text) for ch in str(v))), None)
+        # ring index 0 (a legal, falsy index) in all its spellings, when the text does not use it
+        zero = ['0', '%0', '%00'] if 0 not in {v for _, _, v in marker_sites(clean)} else []
         for (s0, s1, k, n) in toks:
             if n == 1 and not clean[s1:s1 + 1] == '|':
-                for mk in ([d, pct] if pct else [d]):
+                for mk in ([d, pct] if pct else [d]) + zero:
                     new = text[:s1] + mk + text[s1:]
                     if mk[0] == '%' and re.match(r'\d', text[s1:]):
                         continue                  # a digit after %nn would be read into the marker
@@ -436,7 +484,7 @@ class C20(common.Prop):
                      'Dialect.DialectCheck Dialect.FaultModels Dialect.FaultCheck.')
     case_type = 'fcase'
     shard = 150
-    quick_cases = 800
+    quick_cases = 720
     thorough_cases = 20000
     extended_cases = 3000
     fail_text = {1: 'the faulty string yielded a graph (no exception)',
@@ -453,7 +501,9 @@ class C20(common.Prop):
                  'aa': True}
         cg2 = {'parts': ['{[#A][#B]}', '{#A=[$][#X][$][#Y;w=2],#B=[$][$][#X][#Y]}'], 'aa': False}
         unit = {'parts': ['{[#A;q=1][#B][#A;w=2]([#B;foo=bar][#A])|3}', '{#A=[$]CC[$][$],#B=[$]CO[$]}'], 'aa': True, 'unit_start': 13}
-        for v in (base, cg, three, cg2, unit):
+        zero = {'parts': ['{[#A]0[#B][#A]%00}', '{#A=[$]CC[$],#B=[$]CO[$]}'], 'aa': True}
+        zerocg = {'parts': ['{[#A][#B]}', '{#A=[$][#X]%0[#Y][#Z]0[$],#B=[$][#X][$]}'], 'aa': False}
+        for v in (base, cg, three, cg2, unit, zero, zerocg):
             for f in all_faults(v):
                 out.append(dict(f, aa=v['aa'], valid='.'.join(v['parts'])))
         # call histories: a fragment library is built from the very fragment list of the string first
@@ -482,7 +532,7 @@ class C20(common.Prop):
                 # keep every kind represented, positions sampled
                 by = {}
                 for f in fs:
-                    by.setdefault((f['kind'], f['fault']), []).append(f)
+                    by.setdefault((f['kind'], f['fault'], f.get('m') == 0), []).append(f)
                 fs = []
                 for k in sorted(by):
                     fs += rng.sample(by[k], min(len(by[k]), max(4, per // len(by))))
@@ -587,6 +637,8 @@ class C20(common.Prop):
             where = ':%s' % {0: 'base-node', 1: 'atom', 2: 'coarse-fragment-node'}[case['lk']]
         elif case['kind'] in ('ring', 'frag'):
             where = ':level%d' % case['where'][0]
+            if case['kind'] == 'ring' and case.get('m') == 0:
+                where += ':marker0'
             if case.get('form') == 'pct':
                 where += ':%nn' + (':last-node' + ('' if case.get('trailing') else ':at-end') if case.get('last') else '')
         hist = 'history:%s:' % case['history']['mode'] if case.get('history') else ''
